@@ -32,6 +32,15 @@ func TestVerifC02(t *testing.T) {
 				obs = "ok x" + vhex(b)
 			}
 			o.line("layout "+c.Name+" "+v.String(), obs)
+			// conversely: decoding the conformant encoding yields the value it denotes
+			if res == "ok" {
+				p2 := s.newGo(c)
+				r := vunmarshal(p2, b)
+				if r == "ok" {
+					r = "ok " + s.fromGo(c, p2.Elem()).String()
+				}
+				o.line("dec-layout "+c.Name+" "+v.String(), r)
+			}
 		}
 	}
 	// recordings from real readers
